@@ -407,6 +407,67 @@ def run(repo: Repo, rep: Report) -> None:  # noqa: F811
     argswap.scan(repo, rep, "C04.k-no-swapped-arguments-in-the-evaluator", sorted(m for m in repo.modules if m.startswith("rdflib.plugins.sparql.")))
 
 
+_run_base4 = run
+
+
+def run(repo: Repo, rep: Report) -> None:  # noqa: F811
+    _run_base4(repo, rep)
+    op = repo.mod("rdflib.plugins.sparql.operators")
+    # ------------------------------------------------------------------ (l)
+    rep.rule("C04.l-regex-flags-are-passed-as-flags",
+             "every call of re.sub / re.subn in the package passes at most three positional arguments and re.split at most two: the next positional parameter of these functions "
+             "is `count` / `maxsplit`, not `flags` (a fact of the standard library). REPLACE(str, pattern, repl, \"i\") evaluated through re.sub(p, r, s, cFlag) runs case-sensitively "
+             "and replaces at most cFlag occurrences", floor=5)
+    for name, mod in sorted(repo.modules.items()):
+        for c in ast.walk(mod.tree):
+            if isinstance(c, ast.Call) and isinstance(c.func, ast.Attribute) and isinstance(c.func.value, ast.Name) and c.func.value.id == "re" and c.func.attr in ("sub", "subn", "split"):
+                limit = 3 if c.func.attr in ("sub", "subn") else 2
+                ok = len(c.args) <= limit
+                rep.ob("C04.l-regex-flags-are-passed-as-flags", mod, mod.qual_of(c) or "<module>", c, ok,
+                       "" if ok else "the %s positional argument of re.%s is `%s`: %s is used as a count and the flags stay 0" % (
+                           "4th" if limit == 3 else "3rd", c.func.attr, "count" if limit == 3 else "maxsplit", norm(c.args[limit])), node=c)
+
+    # ------------------------------------------------------------------ (m)
+    rep.rule("C04.m-ill-typed-numbers-are-type-errors",
+             "operators.numeric(), through which every arithmetic operator, numeric comparison and numeric built-in obtains its operands, raises SPARQLTypeError for a literal "
+             "with a numeric datatype whose lexical form has no value (Literal.value is None, e.g. \"abc\"^^xsd:integer): Literal.toPython() hands such a literal back as itself, "
+             "and arithmetic on it recurses until the interpreter gives up instead of producing a SPARQL error", floor=1)
+    nf = op.func("numeric")
+    rets = [r for r in own_nodes(nf) if isinstance(r, ast.Return) and r.value is not None and "toPython" in norm(r.value)]
+    if not rets:
+        raise AnalysisError("operators.numeric: `return expr.toPython()` not found")
+    par = nf.args.args[0].arg
+    for r in rets:
+        guard = [n for n in own_nodes(nf) if isinstance(n, ast.If) and n.lineno < r.lineno and any(isinstance(x, ast.Raise) for x in n.body)
+                 and any(isinstance(c, ast.Compare) and isinstance(c.ops[0], ast.Is) and norm(c.left) == "%s.value" % par for c in ast.walk(n.test)) or
+                 (isinstance(n, ast.If) and n.lineno < r.lineno and any(isinstance(x, ast.Raise) for x in n.body) and "ill_typed" in norm(n.test))]
+        rep.ob("C04.m-ill-typed-numbers-are-type-errors", op, "numeric", r, bool(guard),
+               "a literal without a value is rejected first" if guard else
+               "numeric() returns toPython() of an ill-typed literal, which is the Literal itself: `\"abc\"^^xsd:integer + 1` ends in RecursionError (the query raises), isNumeric() answers true", node=r)
+
+    # ------------------------------------------------------------------ (n)
+    rep.rule("C04.n-substr-positions-are-clamped",
+             "Builtin_SUBSTR implements fn:substring: positions are 1-based and positions below 1 do not exist. A slice bound computed from the query's numbers is clamped "
+             "(max(...)) before it is used: Python reads a negative bound as `from the end`, so SUBSTR(\"hello\", 0) would be \"o\"", floor=1)
+    sf = op.func("Builtin_SUBSTR")
+    slices = [n for n in own_nodes(sf) if isinstance(n, ast.Subscript) and isinstance(n.slice, ast.Slice)]
+    if not slices:
+        raise AnalysisError("Builtin_SUBSTR: slice not found")
+    for sl in slices:
+        bounds = [b for b in (sl.slice.lower, sl.slice.upper) if b is not None]
+        bad = []
+        for b in bounds:
+            if isinstance(b, ast.Name):
+                defs = [a.value for a in own_nodes(sf) if isinstance(a, ast.Assign) and isinstance(a.targets[0], ast.Name) and a.targets[0].id == b.id]
+                clamped = all(isinstance(d, ast.Constant) and d.value is None or any(isinstance(c, ast.Call) and norm(c.func) == "max" for c in ast.walk(d)) for d in defs) and bool(defs)
+            else:
+                clamped = any(isinstance(c, ast.Call) and norm(c.func) == "max" for c in ast.walk(b))
+            if not clamped:
+                bad.append(norm(b))
+        rep.ob("C04.n-substr-positions-are-clamped", op, "Builtin_SUBSTR", sl, not bad,
+               "bounds clamped" if not bad else "slice bound(s) %s can be negative: SUBSTR(\"hello\", 0) reads the string from the end (\"o\" instead of \"hello\"), SUBSTR(\"hello\", 0, 3) is \"\" instead of \"he\"" % bad, node=sl)
+
+
 _run_before_borrow = run
 
 
